@@ -56,6 +56,8 @@ def make_keymap(spec):
     if cls == 'stringmap':
         return km.stringmap(encoding=opt, **kw)
     if cls == 'picklemap':
+        if spec.get('proto') is not None:
+            kw['protocol'] = spec['proto']                  # encoder configuration that changes the bytes
         if opt == 'dill-module':
             import dill
             return km.picklemap(serializer=dill, **kw)      # the module form the docstring asks for
